@@ -190,6 +190,18 @@ func (p *Prog) FindAt(h []byte, at int, longest bool) []int {
 	return nil
 }
 
+// FindAtAnchored returns the capture vector of the leftmost-first match that starts exactly at `at` (in context),
+// or nil.
+func (p *Prog) FindAtAnchored(h []byte, at int) []int {
+	p.reset(h)
+	p.longest = false
+	p.endAt = -1
+	if m := p.matchAt(at); m != nil {
+		return append([]int(nil), m...)
+	}
+	return nil
+}
+
 // FindAtBytewise is FindAt but tries every byte offset >= at as a start (what a byte-level automaton without
 // rune alignment computes). For valid UTF-8 and patterns whose first rune is matched exactly the two coincide.
 func (p *Prog) FindAtBytewise(h []byte, at int, longest bool) []int {
